@@ -282,7 +282,9 @@ func checkC10(tier string) {
 		}
 		r := goderive(dir, args...)
 		after := snapshot(dir)
-		if d := snapDiff(before, after, func(rel string) bool { return filepath.Base(rel) == "derived.gen.go" }); len(d) > 0 {
+		if d := snapDiff(before, after, func(rel string) bool {
+			return filepath.Base(rel) == "derived.gen.go" && (pr.onlyIn == "" || filepath.Dir(rel) == pr.onlyIn)
+		}); len(d) > 0 {
 			rep.Violation("no-flags-touches-other-files|"+pr.plugin+"|"+pr.class, fmt.Sprintf("%s: %s (goderive exit %d)", pr.label, strings.Join(d, ", "), r.Exit),
 				map[string]interface{}{"engine": "e2", "files": pr.files, "args": args})
 		}
